@@ -40,9 +40,14 @@ func storeMachine(t *rapid.T, prop string, kind gen.StoreKind) {
 		cl.label("sparse-full-int32-range")
 	}
 	g := &opGen{base: base, span: span, bud: bud, kinds: storeOpKinds}
+	if rapid.IntRange(0, 7).Draw(t, "largescale") == 0 {
+		// one case in eight is large-scale: big bursts are part of its operation mix
+		g.kinds = append(append([]string{}, g.kinds...), "bigburst", "bigburst", "bigburst")
+		cl.label("large-scale")
+	}
 	if kind.Name == "paginated" {
 		// more bursts of unit adds: they are what fills the buffer, triggers compaction and creates pages
-		g.kinds = append(append([]string{}, storeOpKinds...), "burst", "burst", "burst", "burst")
+		g.kinds = append(append([]string{}, g.kinds...), "burst", "burst", "burst", "burst")
 	}
 	u := newSUT(kind, bud, cl)
 	cl.logf("%s kind=%s base=%d span=%d", prop, kind, base, span)
